@@ -113,3 +113,154 @@ def degenerate(M):
     """does this configuration have any feed/biofuel variable at all? (the code skips the sum constraints when every term is the constant 0)"""
     F = M.cfg["flags"]
     return not any(F.get(k) for k in ("STORED_FOOD", "OUTDOOR_GROWING", "SEAWEED", "CELLULOSIC_SUGAR", "METHANE_SCP"))
+
+
+# ------------------------------------------------------------------------------------------------------------------
+# Independent specification LP (C02): decision variables are allocations only; every stock is an explicit expression.
+DECISIONS = ["stored_food_to_humans", "stored_food_feed", "stored_food_biofuel", "crops_food_to_humans", "crops_food_feed", "crops_food_biofuel", "meat_eaten",
+             "methane_scp_to_humans", "methane_scp_feed", "methane_scp_biofuel", "cellulosic_sugar_to_humans", "cellulosic_sugar_feed", "cellulosic_sugar_biofuel",
+             "seaweed_to_humans", "seaweed_feed", "seaweed_biofuel", "seaweed_wet_on_farm", "used_area"]
+NEEDS = dict(stored_food="STORED_FOOD", crops_food="OUTDOOR_GROWING", meat="MEAT", methane_scp="METHANE_SCP", cellulosic_sugar="CELLULOSIC_SUGAR", seaweed="SEAWEED", used_area="SEAWEED")
+
+
+def _enabled(cfg, key):
+    for pre, flag in NEEDS.items():
+        if key.startswith(pre):
+            return bool(cfg["flags"].get(flag))
+    return True
+
+
+def spec_lp(M, over="fresh"):
+    """over="fresh": allocations are fresh symbols (spec => code direction); over="code": allocations are the code's own decision variables (code => spec).
+    returns (A, spec constraints [(name, formula)], objective term, substitution list [(code variable term, expression over A and supplies)])
+    written from the physical statement: allocations a, supplies s; feasible iff nothing is drawn that does not exist, the documented caps hold and
+    the round's feed/biofuel rule holds."""
+    cfg, S, N = M.cfg, M.S, M.cfg["N"]
+    human = cfg["opt"] == "to_humans"
+    w = W(cfg)
+    K = q(cfg["seaweed_kcals"])
+    need = q(cfg["pop"]) * q(cfg["kcals_daily"]) * 30 / q(1e9)
+    c = M.consts
+    A = {}
+    for key in DECISIONS:
+        if _enabled(cfg, key):
+            A[key] = [z3.Real("a_%s_%d" % (key, m)) for m in range(N)] if over == "fresh" else [zz(M.V[key][m]) for m in range(N)]
+        else:
+            A[key] = [q(0)] * N
+    zobj = z3.Real("a_objective") if over == "fresh" else M.V["objective_function"].z
+    a = lambda k, m: A[k][m]
+    spec = []
+    for key in DECISIONS:
+        if _enabled(cfg, key):
+            spec += [("allocation >= 0: %s [month %d]" % (key, m), A[key][m] >= 0) for m in range(N)]
+    spec.append(("objective >= 0", zobj >= 0))
+    u_sf = lambda m: a("stored_food_to_humans", m) * w + a("stored_food_feed", m) + a("stored_food_biofuel", m)
+    u_cr = lambda m: a("crops_food_to_humans", m) * w + a("crops_food_feed", m) + a("crops_food_biofuel", m)
+    u_mt = lambda m: a("meat_eaten", m) * w
+    cum = lambda f, m: z3.Sum([f(j) for j in range(m + 1)]) if m >= 0 else q(0)
+    F = cfg["flags"]
+    if F.get("STORED_FOOD"):
+        for m in range(N):
+            spec.append(("spec stored food cumulative [month %d]" % m, cum(u_sf, m) <= S["sf0"]))
+            if not cfg["store"] and m > 12:
+                spec.append(("spec stored food unusable after the first year [month %d]" % m, z3.And(a("stored_food_to_humans", m) == 0, a("stored_food_feed", m) == 0, a("stored_food_biofuel", m) == 0)))
+        if human and cfg["store"]:
+            spec.append(("spec stored food fully used", cum(u_sf, N - 1) == S["sf0"]))
+    if F.get("OUTDOOR_GROWING"):
+        for m in range(N):
+            spec.append(("spec crops cumulative [month %d]" % m, cum(u_cr, m) <= z3.Sum([zz_s(S["crops"][j]) for j in range(m + 1)])))
+        if human:
+            spec.append(("spec crops fully used", cum(u_cr, N - 1) == z3.Sum([zz_s(x) for x in S["crops"]])))
+    if F.get("MEAT"):
+        for m in range(N):
+            if cfg["store"]:
+                spec.append(("spec meat cumulative [month %d]" % m, cum(u_mt, m) <= z3.Sum([S["slaughter"][j] for j in range(m + 1)])))
+            else:
+                spec.append(("spec meat monthly [month %d]" % m, u_mt(m) <= S["slaughter"][m]))
+    if F.get("METHANE_SCP"):
+        for m in range(N):
+            spec.append(("spec scp monthly [month %d]" % m, a("methane_scp_to_humans", m) * w + a("methane_scp_feed", m) + a("methane_scp_biofuel", m) <= S["scp"][m]))
+    if F.get("CELLULOSIC_SUGAR"):
+        for m in range(N):
+            spec.append(("spec cs monthly [month %d]" % m, a("cellulosic_sugar_to_humans", m) * w + a("cellulosic_sugar_feed", m) + a("cellulosic_sugar_biofuel", m) <= S["cs"][m]))
+    if F.get("SEAWEED"):
+        for m in range(N):
+            built = zz_s(S["area"][m])
+            spec.append(("spec seaweed biomass bounds [month %d]" % m, z3.And(a("seaweed_wet_on_farm", m) >= q(c["INITIAL_SEAWEED"]), a("seaweed_wet_on_farm", m) <= q(c["MAXIMUM_DENSITY"]) * built)))
+            spec.append(("spec seaweed area bounds [month %d]" % m, z3.And(a("used_area", m) >= q(c["INITIAL_BUILT_SEAWEED_AREA"]), a("used_area", m) <= built)))
+            if m == 0:
+                spec.append(("spec seaweed start", z3.And(a("seaweed_wet_on_farm", 0) == q(c["INITIAL_SEAWEED"]), a("used_area", 0) == q(c["INITIAL_BUILT_SEAWEED_AREA"]),
+                                                          a("seaweed_to_humans", 0) == 0, a("seaweed_feed", 0) == 0, a("seaweed_biofuel", 0) == 0)))
+            else:
+                g = q(1) + q(M.growth[m]) / 100
+                spec.append(("spec seaweed ledger [month %d]" % m, a("seaweed_wet_on_farm", m) == a("seaweed_wet_on_farm", m - 1) * g - a("seaweed_to_humans", m) * w - a("seaweed_feed", m)
+                             - a("seaweed_biofuel", m) - (a("used_area", m) - a("used_area", m - 1)) * q(c["MINIMUM_DENSITY"]) * (q(c["HARVEST_LOSS"]) / 100)))
+    fsum = lambda m: a("stored_food_feed", m) + a("crops_food_feed", m) + a("seaweed_feed", m) * K + a("cellulosic_sugar_feed", m) + a("methane_scp_feed", m)
+    bsum = lambda m: a("stored_food_biofuel", m) + a("crops_food_biofuel", m) + a("seaweed_biofuel", m) * K + a("cellulosic_sugar_biofuel", m) + a("methane_scp_biofuel", m)
+    pct = lambda m: (a("stored_food_to_humans", m) + a("crops_food_to_humans", m) + a("seaweed_to_humans", m) * K + zz_s(S["milk"][m]) + a("meat_eaten", m)
+                     + a("cellulosic_sugar_to_humans", m) + a("methane_scp_to_humans", m) + zz_s(S["gh"][m]) + zz_s(S["fish"][m])) / need * 100
+    any_edible = not degenerate(M)
+    for m in range(N):
+        if human:
+            if any_edible:
+                spec.append(("spec feed total == charge [month %d]" % m, fsum(m) == zz_s(S["feed"][m])))
+                spec.append(("spec biofuel total == charge [month %d]" % m, bsum(m) == zz_s(S["biofuel"][m])))
+            spec.append(("spec objective <= percent fed [month %d]" % m, zobj <= pct(m)))
+        else:
+            if any_edible:
+                spec.append(("spec feed total <= ceiling [month %d]" % m, fsum(m) <= zz_s(S["max_feed"][m])))
+                spec.append(("spec biofuel total <= ceiling [month %d]" % m, bsum(m) <= zz_s(S["max_biofuel"][m])))
+                if m > 0:
+                    spec.append(("spec feed never rises [month %d]" % m, fsum(m) <= fsum(m - 1)))
+                    spec.append(("spec biofuel never rises [month %d]" % m, bsum(m) <= bsum(m - 1)))
+        # documented caps on the share of resilient foods
+        for food, key, ratio in (("SEAWEED", "seaweed", K), ("METHANE_SCP", "methane_scp", q(1)), ("CELLULOSIC_SUGAR", "cellulosic_sugar", q(1))):
+            if not F.get(food):
+                continue
+            h, f, b = cfg["caps"][food]
+            if human:
+                spec.append(("spec %s cap for humans vs initial need [month %d]" % (key, m), a(key + "_to_humans", m) * ratio <= q(h / 100) * need))
+                spec.append(("spec %s cap for humans vs actual intake [month %d]" % (key, m), a(key + "_to_humans", m) * ratio <= q(h / 100) * (pct(m) * need / 100)))
+            charge_f = zz_s(S["feed"][m])
+            charge_b = zz_s(S["biofuel"][m])
+            spec.append(("spec %s share of feed [month %d]" % (key, m), a(key + "_feed", m) * ratio <= q(f / 100) * charge_f))
+            spec.append(("spec %s share of biofuel [month %d]" % (key, m), a(key + "_biofuel", m) * ratio <= q(b / 100) * charge_b))
+    if not human:
+        # pinned human consumption (within the tolerance the round applies) and the weighted objective
+        tol = 1e-4 if cfg["pop"] < 1e7 else 1e-5
+        pinmap = dict(outdoor_crops=("crops_food_to_humans", q(1), "OUTDOOR_GROWING"), stored_food=("stored_food_to_humans", q(1), "STORED_FOOD"), meat=("meat_eaten", q(1), "MEAT"),
+                      methane_scp=("methane_scp_to_humans", q(1), "METHANE_SCP"), cellulosic_sugar=("cellulosic_sugar_to_humans", q(1), "CELLULOSIC_SUGAR"), seaweed=("seaweed_to_humans", K, "SEAWEED"))
+        for food, (key, ratio, flag) in pinmap.items():
+            if not F.get(flag):
+                continue
+            for m in range(N):
+                p = S["pins"][food][m]
+                spec.append(("spec pinned human consumption of %s [month %d]" % (food, m), z3.And(a(key, m) * ratio >= q(1 - tol) * p, a(key, m) * ratio <= q(1 + tol) * p)))
+        spec.append(("spec objective <= 2/3 feed + 1/3 biofuel", zobj <= q(2 / 3) * z3.Sum([fsum(m) for m in range(N)]) + z3.Sum([bsum(m) for m in range(N)]) / 3))
+    # ---- substitution: every code variable as an expression over allocations and supplies
+    sub = []
+    V = M.V
+
+    def link(key, m, term):
+        cv = V[key][m]
+        if hasattr(cv, "z") and z3.is_const(cv.z) and cv.z.decl().kind() == z3.Z3_OP_UNINTERPRETED:
+            sub.append((cv.z, term))
+    for m in range(N):
+        for key in DECISIONS:
+            link(key, m, A[key][m])
+        link("stored_food_start", m, S["sf0"] - cum(u_sf, m - 1))
+        link("stored_food_end", m, S["sf0"] - cum(u_sf, m))
+        link("crops_food_consumed", m, u_cr(m))
+        link("crops_food_storage", m, z3.Sum([zz_s(S["crops"][j]) for j in range(m + 1)]) - cum(u_cr, m))
+        tot = z3.Sum(list(S["slaughter"]))
+        link("meat_start", m, tot - cum(u_mt, m - 1))
+        link("meat_end", m, tot - cum(u_mt, m))
+        if human:
+            link("consumed_kcals", m, pct(m))
+        for key in ("consumed_fat", "consumed_protein", "crops_food_consumed_fat", "crops_food_consumed_protein", "crops_food_to_humans_fat", "crops_food_feed_fat", "crops_food_biofuel_fat",
+                    "crops_food_to_humans_protein", "crops_food_feed_protein", "crops_food_biofuel_protein"):
+            if isinstance(V[key][m], (int, float)):
+                continue
+            link(key, m, q(0))
+    sub.append((V["objective_function"].z, zobj))
+    return A, spec, zobj, sub
